@@ -54,25 +54,25 @@ CLAIMED["C04"] = dict(
 CLAIMED["C14"] = dict(
     category="exploration",
     technique="deterministic simulation under a virtual clock: swarm-drawn timing configurations, clock jumps of minutes to weeks, before/after decoding of object sets around every real maintenance task",
-    text="Seeded search over timing configurations x histories x clock advances; the real RepublishIfNeeded / RenewObjectsIfNeeded tasks fire from the real scheduler under the virtual clock and every stored set is decoded before and after each run (due => re-issued with number+1, not due => byte-identical, payload names unchanged, numbers monotone), plus a relying-party walk at quiescence for windows containing the present.",
+    text="Seeded search over timing configurations x histories x clock advances; the real RepublishIfNeeded / RenewObjectsIfNeeded tasks fire from the real scheduler under the virtual clock and every stored set is decoded before and after each run (due => re-issued with number+1, not due => byte-identical, payload names unchanged, numbers monotone), plus a relying-party walk at quiescence for windows containing the present. Part c18: a forced or due re-publication run overlapping other requests on other threads must leave a serialisable state.",
     design_ref="DESIGN.md §5 C14",
 )
 CLAIMED["C06"] = dict(
     category="exploration",
     technique="deterministic simulation: seeded histories with real snapshot tasks and restarts; three-way comparison live / snapshot+commands / init+all commands for every aggregate type, plus API views and the content log; command bursts with one injected failing storage write",
-    text="Seeded search over command histories with snapshots and restarts at seed-chosen points on both storage back-ends; every aggregate type is rebuilt from the same stored bytes in two further ways and compared field by field with the live state (two wall-clock fields masked), replays run under catch_unwind. A second part issues bursts of commands without reads in between, one of them with an injected failing write, and makes the same comparison (what a failed write leaves in the aggregate cache must equal what is stored).",
+    text="Seeded search over command histories with snapshots and restarts at seed-chosen points on both storage back-ends; every aggregate type is rebuilt from the same stored bytes in two further ways and compared field by field with the live state (two wall-clock fields masked), replays run under catch_unwind. A second part issues bursts of commands without reads in between, one of them with an injected failing write, and makes the same comparison (what a failed write leaves in the aggregate cache must equal what is stored). A third of the snapshot updates run with their k-th storage mutation failing (I/O error), and the three-way comparison runs right afterwards.",
     design_ref="DESIGN.md §5 C06",
 )
 CLAIMED["C08"] = dict(
     category="fault_enumeration",
     technique="deterministic simulation with fault injection: per (operation, reached state) pair every storage and file-system mutation is cut by a crash, by an I/O error, by a full-disk window and by a crash followed by a second crash during start-up or the background work after it; restart from the surviving directory; fault-free twin as oracle",
-    text="Seeded choice of (operation, state) pairs; within a pair the cut points (mutations of the key-value store and the file system, recorded by a counting run) are enumerated completely up to 24 and sampled beyond, each as process crash (unwind, restart from disk), as a failing write, a third of the creating ones as a full-disk window, and half of them as a crash followed by a second crash before the j-th mutation of the start-up path or of the first background round. Loading of every entity, audit log / state / object set agreement and validity of the published tree are checked right after the cut, equality with the fault-free twin after the recovery procedure.",
+    text="Seeded choice of (operation, state) pairs; within a pair the cut points (mutations of the key-value store and the file system, recorded by a counting run) are enumerated completely up to 24 and sampled beyond, each as process crash (unwind, restart from disk), as a failing write, a third of the creating ones as a full-disk window, and half of them as a crash followed by a second crash before the j-th mutation of the start-up path or of the first background round. Loading of every entity, audit log / state / object set agreement and validity of the published tree are checked right after the cut, equality with the fault-free twin after the recovery procedure. One pair in six cuts the removal of a publisher (two entities changed by one request). Parts netcrash/netcrashfaults: two-instance histories over the simulated network in which, several times per run, one instance's process dies before the k-th mutation of a background task or while it serves a request of the other instance, and is started again; the C01-C03 oracles must hold at every later quiescence.",
     design_ref="DESIGN.md §5 C08",
 )
 CLAIMED["C09"] = dict(
     category="fault_enumeration",
     technique="deterministic simulation with fault injection: crash before every mutation of an operation and its background tasks, restart, run all due tasks, direct follow-up oracle; the same cut points as a failing write with the instance staying up and as a double crash; publication runs with a failing task-store write; plus the real TaskQueue against a reference model under seeded operation/restart sequences",
-    text="Crash points are enumerated per (operation, state) pair like for C08 (including every instant at which a task is pending or exactly one is running); after restart the queue is inspected (nothing left running, recurring tasks queued) and the effects of the follow-ups are checked directly (object sets at the repository, served files equal content, no unsent requests, no key in use at a parent that its child dropped). The same cut points are run as a single failing write with the instance staying up (judged after the retry interval) and, for half of them, with a second crash after the restart. The queue primitive itself is explored against a reference model, and publication runs with a failing write of the task store check that an RRDP update queued for an acknowledged publication still takes place.",
+    text="Crash points are enumerated per (operation, state) pair like for C08 (including every instant at which a task is pending or exactly one is running); after restart the queue is inspected (nothing left running, recurring tasks queued) and the effects of the follow-ups are checked directly (object sets at the repository, served files equal content, no unsent requests, no key in use at a parent that its child dropped). The same cut points are run as a single failing write with the instance staying up (judged after the retry interval) and, for half of them, with a second crash after the restart. The queue primitive itself is explored against a reference model, and publication runs with a failing write of the task store check that an RRDP update queued for an acknowledged publication still takes place. Part netcrash: process crashes of either instance in the middle of background tasks in two-instance histories (quiescence must be reached again). Part c09hist: the follow-up oracle (object sets at the repository, served files, no key left in use at a parent) at every quiescence of fault-free removal-heavy histories, half of them with a child that loses several classes under one parent at once.",
     design_ref="DESIGN.md §5 C09",
 )
 CLAIMED["C11"] = dict(
@@ -84,13 +84,13 @@ CLAIMED["C11"] = dict(
 CLAIMED["C07"] = dict(
     category="exploration",
     technique="deterministic simulation of real threads: cooperative scheduler (seeded random and PCT policies, recorded decision list) releasing API and reader threads one at a time at Krill's storage/lock switch points; serial witness as oracle; sequential command bursts without intermediate reads and one injected failing storage write, audit-log and rebuild oracles",
-    text="Seeded search over interleavings of concurrent commands and reads on the same and different CAs on both back-ends; versions, stored command records and reader observations are checked directly, and linearizability is decided by re-building the same prefix and issuing the same calls one at a time in their commit order (further linear extensions are tried before a mismatch is reported). A second part covers failing writes: bursts of 2-4 commands against one CA without reads in between, one of them with its k-th storage mutation failing; stored command numbers must stay consecutive, the live version must equal their number, refused and acknowledged calls must have their records and the live state must equal the replayed one.",
+    text="Seeded search over interleavings of concurrent commands and reads on the same and different CAs on both back-ends; versions, stored command records and reader observations are checked directly, and linearizability is decided by re-building the same prefix and issuing the same calls one at a time in their commit order (further linear extensions are tried before a mismatch is reported). A second part covers failing writes: bursts of 2-4 commands against one CA without reads in between, one of them with its k-th storage mutation failing; stored command numbers must stay consecutive, the live version must equal their number, refused and acknowledged calls must have their records and the live state must equal the replayed one. Two further threads page through the command history (the history API, with and without the history cache) while commands are recorded; every page must list consecutive versions once each.",
     design_ref="DESIGN.md §5 C07",
 )
 CLAIMED["C18"] = dict(
     category="exploration",
     technique="deterministic simulation of real threads: cooperative scheduler over API threads plus a scheduler stand-in thread running the real background tasks; structural deadlock detection, step budget, serial witness and relying-party walk",
-    text="Seeded search over interleavings of API calls with the real task scheduler (parent and child on one instance, publication server included); deadlock is detected structurally (every unfinished thread blocked on a lock, none can progress), completion is bounded by a step budget, panics and daemon exits are caught unwinds, and the state after quiescence is compared with a serial execution whenever the per-call outcomes coincide.",
+    text="Seeded search over interleavings of API calls with the real task scheduler (parent and child on one instance, publication server included); deadlock is detected structurally (every unfinished thread blocked on a lock, none can progress), completion is bounded by a step budget, panics and daemon exits are caught unwinds, and the state after quiescence is compared with a serial execution whenever the per-call outcomes coincide. In a third of the scenarios one request deletes a CA while the scheduler thread works on the tasks the deletion queues for that CA (aggregate and history cache locks are cooperative wait points, so a lock-order inversion shows as a structural deadlock).",
     design_ref="DESIGN.md §5 C18",
 )
 CLAIMED["C10"] = dict(
@@ -102,19 +102,19 @@ CLAIMED["C10"] = dict(
 CLAIMED["C12"] = dict(
     category="fault_enumeration",
     technique="deterministic simulation of the transport between remote children/publishers (played by the harness with its own identity keys) and the real rfc6492 / rfc8181 entry points: substitution of signing keys and senders, identity replacement, single-bit corruption",
-    text="The key x sender x recipient matrix, the identity-replacement cases and the publication isolation cases are enumerated completely in every run; bit corruption is sampled (320 positions per run, jittered by the seed). State digests before/after every refused request, replies validated under the server's identity certificate; issuance with a narrowing request limit, and the list request of a suspended child whose entitlement shrank (what the reply offers and the certificates it carries must lie within the entitlement as it is now).",
+    text="The key x sender x recipient matrix, the identity-replacement cases and the publication isolation cases are enumerated completely in every run; bit corruption is sampled (320 positions per run, jittered by the seed). State digests before/after every refused request, replies validated under the server's identity certificate; issuance with a narrowing request limit, and the list request of a suspended child whose entitlement shrank (what the reply offers and the certificates it carries must lie within the entitlement as it is now). Half of the runs replace a child's identity in a request that also states its resources (every field must take effect).",
     design_ref="DESIGN.md §5 C12",
 )
 CLAIMED["C16"] = dict(
     category="exploration",
     technique="deterministic simulation with a hostile client: structured and seeded mutations of CMS messages (raw and validly re-signed), XML and API JSON bodies against the protocol entry points and manager calls under catch_unwind",
-    text="Seeded search over malformed inputs at the entry points the simulator can reach (rfc6492, rfc8181, serde decoding of API request types followed by the manager call). The values of the numeric path segments of the history and stale-publisher routes are passed to the manager calls their handlers make (extreme values). The HTTP routing layer itself (path splitting, headers) is outside the simulator; that part of the quantifier is not covered (see DESIGN.md).",
+    text="Seeded search over malformed inputs at the entry points the simulator can reach (rfc6492, rfc8181, serde decoding of API request types followed by the manager call). The values of the numeric path segments of the history and stale-publisher routes are passed to the manager calls their handlers make (extreme values). The HTTP routing layer itself (path splitting, headers) is outside the simulator; that part of the quantifier is not covered (see DESIGN.md). Well-formed but unusual values (IPv4-mapped and other special IPv6 prefixes, extreme AS numbers) are sent to the CA that holds all resources and everything stored is read back the way a restarted daemon does; history offsets beyond the end.",
     design_ref="DESIGN.md §5 C16",
 )
 CLAIMED["C15"] = dict(
     category="fault_enumeration",
     technique="deterministic simulation with the harness as courier between trust-anchor proxy and signer: replayed, stale, re-ordered, cross-signed and modified requests and responses around every genuine exchange, several children with concurrent requests",
-    text="The message-level fault kinds (replay, stale nonce, foreign signing key, clear text altered after signing, corrupted signed message, second request while one is open) are all delivered in every round of every run, around genuine exchanges carrying 1-2 child requests; state digests before/after every refused message; the open request fetched a second time (same nonce, signed anew) must not be processed again; a collected response is gone from the proxy and a further synchronisation delivers nothing. Signer re-initialisation is not covered (no such operation exists for the embedded signer).",
+    text="The message-level fault kinds (replay, stale nonce, foreign signing key, clear text altered after signing, corrupted signed message, second request while one is open) are all delivered in every round of every run, around genuine exchanges carrying 1-2 child requests; state digests before/after every refused message; the open request fetched a second time (same nonce, signed anew) must not be processed again; a collected response is gone from the proxy and a further synchronisation delivers nothing. Signer re-initialisation is not covered (no such operation exists for the embedded signer). Part c15host: the real stand-alone signer (TrustAnchorSignerManager on its own storage) with the harness as courier; the signer is re-initialised with the same trust-anchor key (new identity) and the proxy told by 'signer update': afterwards only the newly associated signer is listened to, not the former one, not one with another trust-anchor key.",
     design_ref="DESIGN.md §5 C15",
 )
 CLAIMED["C19"] = dict(
